@@ -1,6 +1,6 @@
 (* allow-axioms:  *)
 From RRE Require Model.StreamAlpha Proofs.StreamAlphaProofs.
-From RRE Require Import Base.Sx Base.Float Model.Window Proofs.WindowProofs.
+From RRE Require Import Base.Sx Base.Float Model.Window Proofs.WindowProofs Proofs.WindowPlacementProofs.
 Open Scope N_scope.
 From RRE Require Import Properties.C12.
 Check (C12_record_no_old : forall dur cap w e x,
@@ -19,6 +19,16 @@ Check (C12_tumbling_one_window_per_interval : forall dur cap ws e,
   NoDup (map w_start ws) ->
   NoDup (map w_start (group_add dur cap ws e)) /\
   (forall s, In s (map w_start (group_add dur cap ws e)) <-> In s (map w_start ws) \/ s = (ets e / dur) * dur)).
+Check (C12_tumbling_windows_exact : forall dur cap es, 0 < dur ->
+  (forall w, In w (windowed dur cap es) ->
+     w_end w = w_start w + dur /\
+     w_events w = cap_events cap (filter (fun x => (ets x / dur) * dur =? w_start w) es) /\
+     exists e, In e es /\ (ets e / dur) * dur = w_start w) /\
+  (forall w1 w2, In w1 (windowed dur cap es) -> In w2 (windowed dur cap es) -> w_start w1 = w_start w2 -> w1 = w2) /\
+  (forall e, In e es -> exists w, In w (windowed dur cap es) /\ w_start w = (ets e / dur) * dur)).
+Check (C12_tumbling_exactly_one_window : forall dur cap es e w, 0 < dur ->
+  (length es <= N.to_nat cap)%nat -> In e es -> In w (windowed dur cap es) ->
+  (In e (w_events w) <-> w_start w = (ets e / dur) * dur)).
 Check (C12_alpha_accepted_iff : forall kind d maxn now nd id ts s t,
   snd (StreamAlpha.process kind d maxn now nd id ts s t) = s && t && StreamAlpha.in_window kind d now ts).
 Check (C12_alpha_nothing_before_the_window : forall kind d maxn now nd id ts s t nd',
